@@ -18,7 +18,7 @@ func signalSource() *hist.Source {
 	s := &hist.Source{Files: map[string]hist.File{"p/in.txt": {Content: "in"}}, Toml: "num_workers = 1\n"}
 	for _, n := range []string{"s1", "s2", "s3", "s4", "s5"} {
 		s.Targets = append(s.Targets, hist.Target{Pkg: "p", Name: n, Inputs: []string{"in.txt"}, Outputs: []string{n + ".out"}, Command: traceStart + `
-sleep 0.2
+sleep 0.4
 printf '` + n + `' > ` + n + `.out
 echo "end $GROG_TARGET" >> "$VTRACE"`})
 	}
